@@ -13,11 +13,16 @@ class Inconclusive(BaseException):
     """Solver unknown / limit hit."""
 
 
+class StopExploration(BaseException):
+    """raised by a harness once enough counterexamples were collected for a job"""
+
+
 class PathAbort(BaseException):
     """Current path is infeasible (or cut by an assumption)."""
 
 
 QUERY_TIMEOUT_MS = int(os.environ.get("SX_QUERY_TIMEOUT_MS", "60000"))
+FORK_TIMEOUT_MS = int(os.environ.get("SX_FORK_TIMEOUT_MS", "10000"))
 MAX_PATHS = int(os.environ.get("SX_MAX_PATHS", "200000"))
 
 
@@ -174,9 +179,13 @@ class Ctx:
         return r
 
     def _check(self, *assumptions):
+        """feasibility of (path condition and assumptions) on the incremental path solver; when that gives up, the
+        query is retried as a final query (fresh solver, abstraction, components)"""
+        self.solver.set("timeout", FORK_TIMEOUT_MS)
         r = self._timed(self.solver, *assumptions)
         if r == z3.unknown:
-            raise Inconclusive("solver unknown: " + self.solver.reason_unknown())
+            self.stats.bump("fork_retries")
+            return self.final(*assumptions)
         return r == z3.sat
 
     # ---- cached (replayed) auxiliary answers
@@ -454,6 +463,8 @@ def explore(fn, on_path, max_paths=None):
                     on_path(out)
                 except PathAbort:
                     pass
+                except StopExploration:
+                    return n
             if n >= max_paths:
                 raise Inconclusive(f"path limit {max_paths} reached")
             if not ctx.backtrack():
